@@ -82,7 +82,7 @@ theorem step_bound (code : Code) (lim : Limits) (s : VMState) (i : RInstr) (sp :
     have h := simple_spec code lim s i sp p q hse
     have hm := simpleEff_maxPush hse
     refine h.mono ?_ ?_ ?_
-    · rintro s' ⟨h1, h2, h3, h4⟩
+    · rintro s' ⟨h2, h3, h4⟩
       exact ⟨by omega, by rw [h3]; simp, fun hok => MemOK_of_keeps hok h4⟩
     · rintro x s' ⟨h1, h2, h3, h4, h5⟩
       exact ⟨h3, by rw [h4]; exact Nat.le_refl _, fun _ hok => MemOK_of_keeps hok h5⟩
